@@ -559,8 +559,8 @@ func (b *backend) lookup(node int, id string, st *stats) (verdict string, f *fai
 		return "gone", nil
 	}
 	expLo, expHi := e.regLo.Add(e.ttl), e.regHi.Add(e.ttl)
-	mustLive := la.Before(expLo.Add(-guard))
-	mustGone := lb.After(expHi.Add(guard))
+	mustLive := beforeBoth(la, expLo.Add(-guard))
+	mustGone := afterBoth(lb, expHi.Add(guard))
 	if err != nil {
 		if mustLive {
 			kind := "not-found"
